@@ -22,6 +22,7 @@ import (
 
 	"verifharness/internal/fakemysql"
 	"verifharness/internal/pbt"
+	"verifharness/internal/proxyfix"
 	"verifharness/internal/sqllex"
 	"verifharness/internal/stmtfix"
 )
@@ -394,6 +395,7 @@ func checkCase(c c16Case) (o pbt.Outcome) {
 	e, err := stmtfix.Open("c16", handler)
 	if err != nil {
 		o.Skip = "fixture: " + err.Error()
+		atomic.AddInt64(&fixtureFailures, 1)
 		return
 	}
 	defer e.Close()
@@ -725,7 +727,20 @@ func staleShows(st *mstmt, got string, m sqllex.Mode, want []sqllex.Param) bool 
 	return sqllex.Match(st.template, got, m, want, alt).OK
 }
 
+// fixtureFailures counts cases that could not be evaluated because the proxy,
+// the backend or the client session could not be set up (e.g. the host ran out
+// of ephemeral ports). A run dominated by them must not look like a pass.
+var fixtureFailures int64
+
 func TestC16History(t *testing.T) {
+	if _, err := proxyfix.Shared(); err != nil {
+		t.Fatalf("inconclusive: the live proxy fixture cannot start: %v", err)
+	}
+	defer func() {
+		if n := atomic.LoadInt64(&fixtureFailures); n > 20 {
+			t.Errorf("inconclusive: the fixture failed to set up %d cases (see the skipped reasons in the evidence)", n)
+		}
+	}()
 	pbt.Run(t, pbt.Spec{ID: "C16", Sub: "history", Quick: 600, Thorough: 5000,
 		Rule:  "histories of 4-25 (thorough 40) commands over 1-3 live statements of 1-3 parameters: prepare, send_long_data (also empty chunks, several chunks, interleaved between statements), execute with values unique to the operation (optionally without type block, optionally failing on the backend), malformed execute (second value truncated, unknown type code at the second parameter, type block cut, packet too short), reset, close, re-prepare, commands on closed/unknown ids; non-trivial = a well-formed execute is checked after a failed execute of the same statement, or long data of two statements is pending at once",
 		Floor: 0.3}, genCase, checkCase)
